@@ -26,6 +26,7 @@ import pool
 
 import diag_lifecycle as dl
 import diag_mutate as dm
+import diag_probes
 import diag_seeds
 
 
@@ -122,7 +123,7 @@ def _stmt_slots(tree):
     return out
 
 
-def shrink(job, key, budget=150):
+def shrink(job, key, budget=40):
     """Greedy statement deletion keeping the same violation key (replay aid, not a verdict)."""
     src = job["src"]
 
@@ -166,20 +167,25 @@ def run(ctx):
         if rr["status"] != "case" or any(t[-1]["out"] != "ok" for t in rr["traces"]):
             raise lib.Machinery(f"seed program {j['seed']} is not accepted by /repo: "
                                 f"{[(n, t[-1]) for n, t in zip(rr['names'], rr['traces'])]} {rr['infos']}")
-    jobs = make_mutants(ctx.seed, ctx.pick(3000, 40000))
-    ctx.log(f"{len(jobs)} distinct mutants of {len(seeds)} seed programs")
+    probes = [{"id": k, "src": src, "experimental": exp, "ops": ["probe"], "seed": f"probe{i}", "timeout": 120}
+              for k, (i, src, exp) in enumerate((i, src, exp) for i, src in enumerate(diag_probes.PROBES) for exp in (False, True))]
+    jobs = probes + make_mutants(ctx.seed, ctx.pick(3000, 30000))
+    for k, j in enumerate(jobs):
+        j["id"] = k
+    ctx.log(f"{len(probes)} hand-written near-miss programs, {len(jobs) - len(probes)} distinct mutants of {len(seeds)} seed programs")
     res = run_all(jobs)
-    ctx.log("mutants run; validating lifecycles")
+    ctx.log("programs run; validating lifecycles")
     traces, occ = collect(seeds + jobs, sres + res)
     bad = validate(ctx, traces)
     groups = collections.defaultdict(list)
     for tid, verdict in bad.items():
         for job, name, info in occ[tid]:
             groups[key_of(verdict["event"], info)].append((job, name, info, verdict))
+    ctx.log(f"{len(bad)} unmatched traces in {len(groups)} groups")
     for key, items in sorted(groups.items()):
         items.sort(key=lambda it: (len(it[0]["src"]), it[0]["id"]))
         job, name, info, verdict = items[0]
-        small = shrink(job, key) if len(groups) <= 40 else job["src"]
+        small = shrink(job, key) if len(groups) <= 40 and len(job["src"]) > 350 else job["src"]
         what = (f"{key}: {len(items)} lifecycles of {len({it[0]['id'] for it in items})} mutants are not behaviours of the "
                 f"Lifecycle automaton (unmatched event {json.dumps(verdict['event'])} in state {verdict['state']}); "
                 f"entry `{name}`, experimental={job['experimental']}, operators={job['ops']}, program:\n{small}\n"
@@ -210,6 +216,8 @@ def run(ctx):
         "final_events": dict(outcomes),
         "operators": dict(ops),
         "seeds": len(seeds),
+        "handwritten_probes": len(probes),
+        "module_body_exceptions": dict(collections.Counter(r.get("module_body", "") for r in res if r.get("module_body"))),
         "unmatched_traces": len(bad),
         "samples": [{"seed": j["seed"], "ops": j["ops"], "src": j["src"][:400]} for j in jobs[:3]],
         "exhaustive": False,
